@@ -88,7 +88,8 @@ var intAtoms = []struct {
 	src string
 	v   int64
 }{{"a", 7}, {"b", 2}, {"c", -3}, {"n1", 1}, {"li[0]", 3}, {"st.A", 5}, {"(a)", 7}, {"add3(a, 0, 0)", 7}, {"li[2]", 4},
-	{"café", 6}, {"数", 8}, {"bi", 9007199254740993}, {"bj", 9007199254740992}, {"bi", 9007199254740993}, {"bm", 9223372036854775807}, {"bn", -9223372036854775808}}
+	{"bi", 9007199254740993}, {"bj", 9007199254740992}, {"bi", 9007199254740993}, {"bm", 9223372036854775807}, {"bn", -9223372036854775808},
+	{"café", 6}, {"数", 8}} // the neighbour pairs in boolean() index this list: append only
 var floatAtoms = []struct {
 	src string
 	v   float64
